@@ -22,7 +22,8 @@ def bs (s : String) : Bytes := s.toUTF8.toList
 
 /-- whitespace / comment pieces (a comment always carries its terminating LF) -/
 def wsPieces : List Bytes :=
-  [[32], [10], [13], [9], [0], [12], [13, 10], bs "%c\n", bs "%\n", bs "%%EOF (x) <<\r\n", [32, 32]]
+  [[32], [10], [13], [9], [0], [12], [13, 10], [37, 99, 10], [37, 10],
+   [37, 37, 69, 79, 70, 32, 40, 120, 41, 32, 60, 60, 13, 10], [32, 32]]   -- "%c\n", "%\n", "%%EOF (x) <<\r\n"
 
 /-- a run of `k` whitespace pieces -/
 def wsRun : Nat → Ch → Bytes × Ch
